@@ -53,6 +53,7 @@ type GenResult struct {
 	Types   []string          // top-level type names
 	Imports map[string]string // import path -> name
 	AstErr  string
+	DepPb   map[string]string // Go package of a dependency file -> protoc-gen-gogo's output for it
 	// gogo
 	PbName     string
 	PbContent  string
@@ -215,6 +216,17 @@ func wireWellFormed(b []byte) bool {
 
 // RunGogo runs protoc-gen-gogo for a program.
 func RunGogo(e *Env, r *GenResult) {
+	// one invocation per dependency file (one Go package each), then the file of the program
+	r.DepPb = map[string]string{}
+	for _, d := range r.Prog.Spec.Deps {
+		so, se, ex, err := run(e.Run, nil, mkreq.BuildFor(&r.Prog.Spec, "", d.File), e.Gogo)
+		dresp := &pluginpb.CodeGeneratorResponse{}
+		if err != nil || ex != 0 || proto.Unmarshal(so, dresp) != nil || dresp.GetError() != "" || len(dresp.File) == 0 {
+			r.GogoErr = fmt.Sprintf("dependency %s: exit %d %v %s %s", d.File, ex, err, se, dresp.GetError())
+			return
+		}
+		r.DepPb[d.GoPackage] = dresp.File[0].GetContent()
+	}
 	req := mkreq.Build(&r.Prog.Spec, "")
 	so, se, ex, err := run(e.Run, nil, req, e.Gogo)
 	if err != nil || ex != 0 {
@@ -378,7 +390,11 @@ func Layout(e *Env, r *GenResult) bool {
 			dd := filepath.Join(e.Src, strings.TrimPrefix(d.GoPackage, "verifcorpus/"))
 			os.MkdirAll(dd, 0o755)
 			base := d.GoPackage[strings.LastIndex(d.GoPackage, "/")+1:]
-			ioutil.WriteFile(filepath.Join(dd, "stub.go"), []byte("package "+base+"\n"), 0o644)
+			if pb := r.DepPb[d.GoPackage]; pb != "" {
+				ioutil.WriteFile(filepath.Join(dd, "dep.pb.go"), []byte(pb), 0o644)
+			} else {
+				ioutil.WriteFile(filepath.Join(dd, "stub.go"), []byte("package "+base+"\n"), 0o644)
+			}
 		}
 	}
 	tfpkg := r.Package
